@@ -264,7 +264,9 @@ pub fn run(ctx: &Ctx) -> PropReport {
     rep.push(robustness(ctx));
     rep.push(random_order(ctx, ctx.tier.pick(30_000, 300_000)));
     rep.push(run_sharded(ctx, "instructions", ctx.tier.pick(150_000, 1_000_000), instr_strategy, |(n, s): &(String, StateSpec)| judge_instr_case(n, s), |(n, s)| json!({"instruction": n, "state": s.to_json(), "brief": s.brief()})));
-    rep.push(crate::props::incontext::run(ctx, ctx.tier.pick(40_000, 600_000)));
+    for r in crate::props::incontext::run_all(ctx, ctx.tier.pick(40_000, 600_000)) {
+        rep.push(r);
+    }
     rep
 }
 
